@@ -84,6 +84,12 @@ chk("C09", "exploration",
     "Trusted: the value models in harness/c09.go, the dependency/arch models, simulated reader/writer. Real code: control.Marshal/Unmarshal/ConvertToParagraph/UnpackFromParagraph and the custom types' (Un)MarshalControl.",
     "DESIGN.md §5 C09")
 
+chk("C10", "exploration",
+    "deterministic simulation: seeded models of .dsc, .changes, debian/control, Packages and Sources documents rendered by an independent renderer and parsed through the typed entry points over a simulated stream with a tape-chosen caller bufio size (buffered hand-over in ParseControl), or through the *File entry points on the simulated file system, with EIO injection; every typed field and accessor compared with the model; tape minimisation and exact replay",
+    "Field-by-field equality with the model for all five document kinds, including folded lists and dependency fields, file-hash tuples with their algorithm, and derived accessors; the caller's buffer size and the delivery schedule are explored because ParseControl decodes twice from one buffered stream. Sampling: evidence, not proof.",
+    "Trusted: the document models and renderer in harness/docs.go, dependency/arch models, simulated reader and file system. Real code (instrumented copy): control.Parse* and everything below.",
+    "DESIGN.md §5 C10")
+
 def main():
     props = [json.loads(l) for l in open(os.path.join(HERE, "properties.jsonl"))]
     ids = [p["id"] for p in props]
